@@ -1352,6 +1352,21 @@ theorem simE_step {fns P n} (hE : SimE fns P n) (hA : SimArgs fns P n) (hB : Sim
           have := ExecC.append (ExecC.append hx1 hx2) (ExecC.single s3)
           simpa [List.append_assoc] using this
         | _ => simp [R.stuck] at h4
+      | list sa =>
+        cases b with
+        | list sb =>
+          simp [pure_eq, R.ok] at h4
+          obtain ⟨rfl, rfl, rfl⟩ := h4
+          have hl' : σ2 (atvVar vl c1) = .list sa := by
+            rw [hk1, hf2 k1 hk1', ← hk1, hv1]
+          have s3 : ExecS P σ2 (.assign (.t (atvNext vr c2)) (.append (atvVar vl c1) (atvVar vr c2))) []
+              (.normal (σ2.set (.t (atvNext vr c2)) (.list (sa ++ sb)))) :=
+            .assign (.pure (by simp [evalValue, hl', hv2]))
+          refine ⟨σ2.set (.t (atvNext vr c2)) (.list (sa ++ sb)), t1 ++ t3, [], ?_, .pure (by simp [evalValue]), by simp,
+            ha2.set_tmp _ _, (hf1.trans hf2 (by omega)).trans (Frame.set_tmp _ _ (by omega)) (Nat.le_refl _)⟩
+          have := ExecC.append (ExecC.append hx1 hx2) (ExecC.single s3)
+          simpa [List.append_assoc] using this
+        | _ => simp [R.stuck] at h4
       | _ => simp [R.stuck] at h4
     · intro t w h
       simp only [evalExpr, bind_eq, bind_ret_iff] at h
